@@ -24,18 +24,6 @@ REQ = ['Evo.Limits']
 MIN_POP_SIZE = 5
 PROMPT_S = 20.0
 
-FINDINGS = {
-    'diversity': ('C15.diversity_check_exceeds_max_pop_size',
-                  'structural-diversity check refills the population to MIN_POP_SIZE=5 although max_pop_size is smaller'),
-    'randmut': ('C15.random_mutation_ignores_max_pop_size',
-                'PopulationalRandomMutationOptimizer keeps pop_size individuals per step although max_pop_size is smaller'),
-    'n_jobs': ('C15.api_n_jobs_dropped',
-               'GOLEM(n_jobs=k): the worker count stays on ApiParams and never reaches GraphRequirements / the optimiser'),
-    'timeout_none': ('C15.api_timeout_none',
-                     'GOLEM(timeout=None) raises TypeError (timedelta(minutes=None)) although timeout is Optional'),
-}
-
-
 # ------------------------------------------------------------------------------------------------
 # printers
 # ------------------------------------------------------------------------------------------------
@@ -423,6 +411,27 @@ def unit_sizes(ctx):
             meta.append({'unit': 'AdaptiveGraphDepth', 'adaptive': adaptive, 'start_depth': start, 'max_depth': mxd,
                          'max_stagnation_gens': mxs, 'stagnation': stags, 'observed': obs})
             ctx.count('sizes', key=('depth', adaptive, start, mxd, mxs, tuple(stags)), nontrivial=adaptive and start < mxd, unit='depth')
+    # the structural-diversity refill of a real optimiser object (identity evaluator, no optimisation is run)
+    from golem.core.optimisers.opt_history_objects.individual import Individual
+    chains = []
+    for k in range(1, 9):
+        spec = ['a', []]
+        for _ in range(k - 1):
+            spec = ['a', [spec]]
+        chains.append(spec)
+    for mx in [None, 0, 1, 2, 3, 4, 5, 6, 8]:
+        cfg = dict(BASE_CFG, optimiser='pop_random_mutation', num_of_generations=1, timeout_min=1.0, max_pop_size=mx,
+                   pop_size=1, diversity_check=1)
+        opt, _, _ = optrun.make_optimiser(cfg, [])
+        for unique, dup in itertools.product(range(1, 9), [0, 2]):
+            pop = [Individual(optrun.build_graph(chains[i])) for i in range(unique)]
+            pop += [Individual(optrun.build_graph(chains[0])) for _ in range(dup)]
+            rng.shuffle(pop)
+            obs = len(opt.get_structure_unique_population(pop, lambda p: p))
+            cases.append('UDiversity %s %s %s' % (oz(mx), c_Z(unique), c_Z(obs)))
+            meta.append({'unit': 'get_structure_unique_population', 'max_pop_size': mx, 'unique': unique, 'duplicates': dup,
+                         'observed_size': obs})
+            ctx.count('sizes', key=('diversity', mx, unique, dup), nontrivial=bool(mx) and unique <= mx, unit='diversity_refill')
     return cases, meta
 
 
@@ -451,7 +460,7 @@ def aval(v):
     if v is None:
         return 'ANone'
     if isinstance(v, datetime.timedelta):
-        return '(ADelta %s)' % c_Q(Fraction(int(v.total_seconds() * 10 ** 6), 60 * 10 ** 6))
+        return '(ADelta %s)' % c_Q(Fraction(int(round(v.total_seconds() * 10 ** 6)), 60 * 10 ** 6))
     if isinstance(v, (int, float)) and not isinstance(v, bool):
         return '(ANum %s)' % q(v)
     return '(AOpaque %s)' % c_nat(v[1])
@@ -461,48 +470,6 @@ def same(a, b):
     if isinstance(b, tuple):          # opaque object: identity
         return a is b[0]
     return type(a) is type(b) and a == b
-
-
-def observe_api(timeout, n_jobs, kwargs):
-    """kwargs: list of (key, value); opaque objects are (object, id) pairs"""
-    from golem.api.main import GOLEM
-    plain = {k: (v[0] if isinstance(v, tuple) else v) for k, v in kwargs}
-    rec = {'timeout': str(timeout), 'n_jobs': n_jobs, 'kwargs': [k for k, _ in kwargs]}
-    try:
-        g = GOLEM(timeout=timeout, n_jobs=n_jobs, logging_level=50, **plain)
-    except Exception as ex:  # noqa
-        rec['raised'] = type(ex).__name__
-        return rec, None
-    RecorderOptimizer.last = None
-    g.optimise()
-    req, gen, gp = RecorderOptimizer.last
-    objs = (gp, gen, req)
-    where = []
-    for k, v in kwargs:
-        where.append((k, tuple(bool(hasattr(o, k) and same(getattr(o, k), v)) for o in objs)))
-    rec['raised'] = None
-    rec['where'] = where
-    rec['req_timeout'] = getattr(req, 'timeout', None)
-    rec['n_jobs_in'] = tuple(bool(hasattr(o, 'n_jobs') and same(getattr(o, 'n_jobs'), n_jobs)) for o in objs)
-    rec['req_n_jobs'] = getattr(req, 'n_jobs', None)
-    rec['dynamic'] = type(req).__name__ == 'DynamicGraphRequirements'
-    rec['same_objects'] = (req is g.graph_requirements and gen is g.graph_generation_parameters and gp is g.gp_algorithm_parameters)
-    return rec, objs
-
-
-def api_case(timeout, n_jobs, kwargs, rec):
-    kw = c_list(['(%s, %s)' % (c_str(k), aval(v)) for k, v in kwargs], '(string * aval)')
-    if rec['raised']:
-        return ('{| a_timeout := %s; a_njobs := %s; a_kwargs := %s; a_raised := Some %s; a_where := []; '
-                'a_req_timeout := None; a_njobs_in := (false, false, false); a_dynamic := false |}') % (
-            aval(timeout), aval(n_jobs), kw, EXN.get(rec['raised'], 'AttributeError'))
-    tri = lambda t: '(%s, %s, %s)' % tuple(c_bool(x) for x in t)
-    where = c_list(['(%s, %s)' % (c_str(k), tri(w)) for k, w in rec['where']], '(string * (bool * bool * bool))')
-    rt = rec['req_timeout']
-    return ('{| a_timeout := %s; a_njobs := %s; a_kwargs := %s; a_raised := None; a_where := %s; '
-            'a_req_timeout := %s; a_njobs_in := %s; a_dynamic := %s |}') % (
-        aval(timeout), aval(n_jobs), kw, where, ('(Some %s)' % aval(rt)) if rt is not None else 'None',
-        tri(rec['n_jobs_in']), c_bool(rec['dynamic']))
 
 
 def common_kwargs():
@@ -516,12 +483,57 @@ def _zero_metric(graph):
     return 0.0
 
 
+def observe_api(timeout, n_jobs, kwargs):
+    """kwargs: list of (key, value); opaque objects are (object, id) pairs"""
+    from golem.api.main import GOLEM
+    plain = {k: (v[0] if isinstance(v, tuple) else v) for k, v in kwargs}
+    rec = {'timeout': str(timeout), 'n_jobs': n_jobs, 'kwargs': [k for k, _ in kwargs]}
+    try:
+        g = GOLEM(timeout=timeout, n_jobs=n_jobs, logging_level=50, **plain)
+    except Exception as ex:  # noqa
+        rec['raised'] = type(ex).__name__
+        return rec
+    RecorderOptimizer.last = None
+    g.optimise()
+    req, gen, gp = RecorderOptimizer.last
+    objs = (gp, gen, req)
+    where = []
+    for k, v in kwargs:
+        where.append((k, tuple(bool(hasattr(o, k) and same(getattr(o, k), v)) for o in objs)))
+    rec['raised'] = None
+    rec['where'] = where
+    rec['req_timeout'] = getattr(req, 'timeout', 'missing')
+    rec['req_n_jobs'] = getattr(req, 'n_jobs', None)
+    rec['n_jobs_elsewhere'] = bool(hasattr(gp, 'n_jobs') or hasattr(gen, 'n_jobs'))
+    rec['dynamic'] = type(req).__name__ == 'DynamicGraphRequirements'
+    rec['same_objects'] = (req is g.graph_requirements and gen is g.graph_generation_parameters and gp is g.gp_algorithm_parameters)
+    return rec
+
+
+def api_case(cpu, timeout, n_jobs, kwargs, rec):
+    kw = c_list(['(%s, %s)' % (c_str(k), aval(v)) for k, v in kwargs], '(string * aval)')
+    head = '{| a_cpu := %s; a_timeout := %s; a_njobs := %s; a_kwargs := %s; ' % (c_Z(cpu), aval(timeout), c_Z(n_jobs), kw)
+    if rec['raised']:
+        return head + ('a_raised := Some %s; a_where := []; a_req_timeout := None; a_req_njobs := None; '
+                       'a_njobs_elsewhere := false; a_dynamic := false |}') % EXN.get(rec['raised'], 'AttributeError')
+    tri = lambda t: '(%s, %s, %s)' % tuple(c_bool(x) for x in t)
+    where = c_list(['(%s, %s)' % (c_str(k), tri(w)) for k, w in rec['where']], '(string * (bool * bool * bool))')
+    rt = rec['req_timeout']
+    rn = rec['req_n_jobs']
+    return head + ('a_raised := None; a_where := %s; a_req_timeout := %s; a_req_njobs := %s; '
+                   'a_njobs_elsewhere := %s; a_dynamic := %s |}') % (
+        where, 'None' if rt == 'missing' else '(Some %s)' % aval(rt), 'None' if rn is None else '(Some %s)' % aval(rn),
+        c_bool(rec['n_jobs_elsewhere']), c_bool(rec['dynamic']))
+
+
 def unit_api(ctx):
+    from joblib import cpu_count
     from golem.core.adapter.adapter import IdentityAdapter
     from golem.core.optimisers.genetic.gp_params import GPAlgorithmParameters
     from golem.core.optimisers.optimization_parameters import GraphRequirements
     from golem.api.api_utils.api_params import ApiParams
     rng = ctx.rng
+    cpu = int(cpu_count())
     # the key tables of the model against the real classes
     ap = ApiParams({}, n_jobs=1, timeout=1)
     tables = [list(vars(GPAlgorithmParameters())), list(ap.get_default_graph_generation_params()),
@@ -534,50 +546,50 @@ def unit_api(ctx):
                                                  'GraphRequirements differ from the model tables')
     cases, meta = [], []
     timeouts = [2, 0.5, 0, datetime.timedelta(seconds=30), None]
+    jobs = [1, 2, 3, -1, -2, cpu, cpu + 5]
     keys = list(SENTINELS)
     n = ctx.budget(40, 300)
     plan = [(2, 2, [(k, SENTINELS[k]) for k in keys])]       # everything at once
-    plan += [(t, 2, [('num_of_generations', 3)]) for t in timeouts]
-    plan += [(1, j, [(k, SENTINELS[k])]) for j, k in zip(itertools.cycle([2, 3]), keys)]
+    plan += [(t, j, [('num_of_generations', 3)]) for t, j in itertools.product(timeouts, [2, -1])]
+    plan += [(1, j, [(k, SENTINELS[k])]) for j, k in zip(itertools.cycle(jobs), keys)]
+    plan += [(1, 0, []), (1, -cpu - 1, [])]                  # worker counts the code documents as improper
     while len(plan) < n:
         ks = rng.sample(keys, rng.randrange(0, 6))
         kwargs = [(k, SENTINELS[k]) for k in ks]
         if rng.random() < 0.3:
             kwargs.append(('adapter', (IdentityAdapter(), len(plan))))
-        plan.append((rng.choice(timeouts[:4]), rng.choice([2, 3]), kwargs))
+        plan.append((rng.choice(timeouts), rng.choice(jobs), kwargs))
     for timeout, n_jobs, kwargs in plan:
         kwargs = kwargs + common_kwargs()
-        rec, _ = observe_api(timeout, n_jobs, kwargs)
-        cases.append(api_case(timeout, n_jobs, kwargs, rec))
-        jrec = dict(rec, req_timeout=str(rec.get('req_timeout')))
+        rec = observe_api(timeout, n_jobs, kwargs)
+        cases.append(api_case(cpu, timeout, n_jobs, kwargs, rec))
+        jrec = dict(rec, req_timeout=str(rec.get('req_timeout')), cpu_count=cpu)
         meta.append(jrec)
-        ctx.count('api', key=(str(timeout), n_jobs, tuple(k for k, _ in kwargs)), nontrivial=len(kwargs) >= 1,
-                  timeout=type(timeout).__name__, raised=str(rec['raised']), keys=min(len(kwargs), 6))
+        ctx.count('api', key=(str(timeout), n_jobs, tuple(k for k, _ in kwargs)), nontrivial=len(kwargs) >= 4,
+                  timeout=type(timeout).__name__, raised=str(rec['raised']), keys=min(len(kwargs), 9),
+                  n_jobs=('cpu+5' if n_jobs > cpu else 'cpu' if n_jobs == cpu else '-cpu-1' if n_jobs < -cpu else str(n_jobs)))
         if rec['raised'] is None and not rec['same_objects']:
             ctx.violate('api', jrec, 'the parameter objects handed to the optimiser are not the ones the facade built')
-    # canary: claim that the worker count did arrive in the requirements
+    # canary: claim that the worker count arrived as 1 although 2 was given
     ckw = [('pop_size', 6)] + common_kwargs()
-    rec, _ = observe_api(2, 2, ckw)
-    bad = dict(rec, n_jobs_in=(False, False, True))
-    cases.append(api_case(2, 2, ckw, bad))
+    rec = observe_api(2, 2, ckw)
+    bad = dict(rec, req_n_jobs=1)
+    cases.append(api_case(cpu, 2, 2, ckw, bad))
     ctx.canaries += 1
     res = ctx.coq_cases('api', REQ, 'acheck', cases, 5)
-    if not res[-1][0]:
+    if not res[-1][0] and not res[-1][4]:
         ctx.canaries_caught += 1
     for rec, (ag, acc, keys_ok, tmo_ok, nj_ok) in zip(meta, res[:-1]):
         if not ag:
             ctx.disagree('api', rec, 'model of the ApiParams distribution differs from the facade')
         if not acc:
-            if rec['timeout'] == 'None':
-                ctx.violate('api', rec, FINDINGS['timeout_none'][1], finding_key=FINDINGS['timeout_none'][0])
-            else:
-                ctx.violate('api', rec, 'GOLEM(...) raised %s on documented arguments' % rec['raised'])
+            ctx.violate('api', rec, 'GOLEM(...) raised %s on documented arguments' % rec['raised'])
         if not keys_ok:
             ctx.violate('api', rec, 'a limit given to the facade is not found unchanged in exactly one parameter object')
         if not tmo_ok:
             ctx.violate('api', rec, 'the timeout given to the facade does not arrive as the same duration')
         if not nj_ok:
-            ctx.violate('api', rec, FINDINGS['n_jobs'][1], finding_key=FINDINGS['n_jobs'][0])
+            ctx.violate('api', rec, 'the worker count given to the facade does not arrive in the requirements handed to the optimiser')
     ctx.sample(meta[0])
 
 
@@ -713,7 +725,8 @@ def make_configs(ctx):
         kind = kinds[i % len(kinds)]
         i += 1
         scheme = rng.choice(['generational', 'steady_state', 'parameter_free', 'parameter_free'])
-        pop_size, max_pop = rng.choice([(2, 4), (3, 3), (3, 6), (5, 8), (6, 6), (4, 12), (5, None), (3, 5)])
+        # documented domain: pop_size <= max_pop_size (or max_pop_size unset)
+        pop_size, max_pop = rng.choice([(2, 4), (3, 3), (3, 6), (5, 8), (6, 6), (4, 12), (5, None), (3, 5), (2, 3)])
         if max_pop is None and (nog is None or nog > 2):
             max_pop = 8
         cfg = {
@@ -732,30 +745,13 @@ def make_configs(ctx):
         if rng.random() < 0.2:
             cfg['objective'] = {'metrics': rng.choice([['size', 'depth'], ['plateau', 'neg_size']]), 'multi': True}
         out.append(cfg)
-    # configurations aimed at the two population-size findings (kept apart: they carry finding keys)
-    for k in range(ctx.budget(2, 8)):
-        out.append(dict(out[k], optimiser='evo', num_of_generations=3, timeout_min=GENEROUS, early_stopping_iterations=None,
-                        early_stopping_timeout=None, pop_size=3, max_pop_size=rng.choice([3, 4]), diversity_check=1,
+    # the structural-diversity refill with a max_pop_size below MIN_POP_SIZE
+    for k in range(ctx.budget(3, 12)):
+        out.append(dict(out[k], optimiser=rng.choice(['evo', 'pop_random_mutation']), num_of_generations=3, timeout_min=GENEROUS,
+                        early_stopping_iterations=None, early_stopping_timeout=None, pop_size=rng.choice([2, 3]),
+                        max_pop_size=rng.choice([3, 4]), diversity_check=1,
                         objective={'metrics': ['plateau'], 'multi': False}, initial='two'))
-        out.append(dict(out[k], optimiser='pop_random_mutation', num_of_generations=2, timeout_min=GENEROUS,
-                        early_stopping_iterations=None, early_stopping_timeout=None, pop_size=8, max_pop_size=5,
-                        diversity_check=-1, objective={'metrics': ['neg_size'], 'multi': False}, initial='two'))
     return out
-
-
-def classify_max_pop(rec):
-    """which known mechanism explains a population above max_pop_size (None = unexplained)"""
-    cfg = rec['cfg']
-    mx = cfg.get('max_pop_size')
-    if cfg['optimiser'] == 'pop_random_mutation' and cfg.get('pop_size', 0) > mx and cfg.get('diversity_check', -1) == -1:
-        return 'randmut'
-    over = [n for n in rec['evolved_sizes'] if n > mx]
-    if cfg.get('diversity_check', -1) != -1 and mx < MIN_POP_SIZE and all(n == MIN_POP_SIZE for n in over) \
-            and cfg['optimiser'] in ('evo', 'pop_random_mutation'):
-        return 'diversity'
-    if cfg['optimiser'] == 'pop_random_mutation' and cfg.get('pop_size', 0) > mx:
-        return 'randmut'
-    return None
 
 
 RCHECK_NAMES = ['agree', 'accepts', 'generations', 'stagnation', 'time', 'zero_budget', 'max_pop', 'adaptive']
@@ -777,11 +773,7 @@ def judge_run(ctx, group, rec, flags):
     if not zero:
         ctx.violate(group, s, 'zero time budget: evolution steps were performed or the run took more than %.0f s' % PROMPT_S)
     if not mxp:
-        why = classify_max_pop(rec)
-        if why:
-            ctx.violate(group, s, FINDINGS[why][1], finding_key=FINDINGS[why][0])
-        else:
-            ctx.violate(group, s, 'an evolved population is larger than max_pop_size')
+        ctx.violate(group, s, 'an evolved population is larger than max_pop_size')
     if not adp:
         ctx.violate(group, s, 'adaptive population size outside [MIN_POP_SIZE, max_pop_size]')
 
